@@ -176,6 +176,7 @@ type fh struct {
 	ttlCalls []ttlCall         // WithTTL calls the builder performs (C06)
 	ctxs     []context.Context // caller contexts of the Gets, in get-end order
 	quiet    bool              // record nothing (C16: threads must not share harness state)
+	ref      *fhRef
 }
 
 type ttlCall struct {
@@ -235,20 +236,30 @@ func (h *fh) fault(op string) error {
 
 // ---- stats / logger call-outs
 
-type fstats struct{ h *fh }
+// fhRef is the only way from a cache instance (Config.Stats / Config.Logger) back to the harness. It is
+// cleared when an execution has been judged: ShardedMap & co carry a finalizer, and a reference cycle
+// through an object with a finalizer is never garbage collected (instance -> stats -> harness -> instance).
+type fhRef struct{ h *fh }
+
+type fstats struct{ r *fhRef }
 
 func (s fstats) Add(ctx context.Context, name string, inc float64, lv ...string) {
-	if s.h.cfg.Callout {
-		s.h.point(0x51)
+	h := s.r.h
+	if h == nil {
+		return
 	}
 
-	s.h.stats[name+"|"+strings.Join(lv, ",")] += inc
-	s.h.ev(FEv{Kind: "stat", Name: name + "|" + strings.Join(lv, ","), N: int(inc)})
+	if h.cfg.Callout {
+		h.point(0x51)
+	}
+
+	h.stats[name+"|"+strings.Join(lv, ",")] += inc
+	h.ev(FEv{Kind: "stat", Name: name + "|" + strings.Join(lv, ","), N: int(inc)})
 }
 
 func (s fstats) Set(ctx context.Context, name string, v float64, lv ...string) {}
 
-type flogger struct{ h *fh }
+type flogger struct{ r *fhRef }
 
 func (l flogger) Error(ctx context.Context, msg string, kv ...interface{}) { l.out(msg) }
 func (l flogger) Warn(ctx context.Context, msg string, kv ...interface{})  { l.out(msg) }
@@ -258,11 +269,16 @@ func (l flogger) Important(ctx context.Context, msg string, kv ...interface{}) {
 }
 
 func (l flogger) out(msg string) {
-	if l.h.cfg.Callout {
-		l.h.point(0x52)
+	h := l.r.h
+	if h == nil {
+		return
 	}
 
-	l.h.ev(FEv{Kind: "log", Name: msg})
+	if h.cfg.Callout {
+		h.point(0x52)
+	}
+
+	h.ev(FEv{Kind: "log", Name: msg})
 }
 
 // ---- non-generic front end
@@ -541,6 +557,7 @@ func newFH(cfg FCfg) *fh {
 	vclock.Reset()
 
 	h := &fh{cfg: cfg, stats: map[string]float64{}}
+	h.ref = &fhRef{h: h}
 	nkeys := len(cfg.Init)
 
 	for i := 0; i < nkeys; i++ {
@@ -570,11 +587,11 @@ func newFH(cfg FCfg) *fh {
 
 	for _, t := range cfg.Tags {
 		if t == "stats" {
-			st = fstats{h}
+			st = fstats{h.ref}
 		}
 
 		if t == "log" {
-			lg = flogger{h}
+			lg = flogger{h.ref}
 		}
 	}
 
@@ -892,6 +909,8 @@ func exploreF(cfg FCfg, env *Env, opt vsched.Options, post func(h *fh), check fu
 	seenSig := map[string]bool{}
 
 	st := vsched.Explore(opt, body, func(r *vsched.Result) bool {
+		defer func() { h.ref.h = nil }() // break the instance -> harness cycle (see fhRef)
+
 		if r.Horizon {
 			res.Exhaustive = false
 			res.CapHit = "step horizon"
